@@ -28,6 +28,9 @@ var libShapes = []string{
 	// transformations whose update refers to the object that is being updated
 	`{"a": X} ~> |$|{"self": [$]}|`, `{"a": X} ~> |$|{"self": [[$], {"in": $}]}|`, `{"a": X} ~> |$|{"s": [$.a, $]}|`, `{"a": {"b": X}} ~> |a|{"up": [$$, $]}|`, `{"a": X} ~> |$|{"self": $append([], $)}|`,
 	`{"a": X} ~> |$|{"self": $reverse([$, 1])}|`, `{"a": X} ~> |$|{"self": $ ~> $map(function($v){$v})}|`, `{"a": X} ~> |$|{"self": $}, "a"|`, `$ ~> |$|{"self": [$], "x": X}|`, `{"a": X} ~> |$|{"self": {"k": [$]}}|`,
+	// typed lambdas with legal but unusual signatures, called
+	`function($x)<a<>>{$count($x)}(X)`, `function($x)<a<:n>>{$x}(X)`, `function($x)<a<a<s>>>{$x}([X])`, `function($x)<(a)>{$x}(X)`, `function($x)<a?>{$x}(X)`, `function($x)<a<(ns)>+>{$x}(X, Y)`,
+	`function($x)<x-:a>{$x}(X)`, `function($x)<a<>+>{$x}(X, Y)`, `function($x, $y)<a<>a<>?>{[$x, $y]}(X)`, `function($x)<a<a<>>>{$x}([X, Y])`, `function($x)<()>{$x}(X)`, `function($x)<a<x>>{$x}(X)`,
 	`X{"k": $}{"j": $}`, `[X]{"k": $}`, `[X].$`, `$$.(X)`, `$$.(X){"k": $}`, `X.($ & "!")`, `X[$count($) = 1]`, `$sort(X, function($a,$b){$a > $b})`, `$replace("abc", "b", X[0])`, `$join(X, X[0])`, `$substring(X[0], 0, 1)`,
 	`$formatNumber(1, X[0])`, `$pad(X[0], 3)`, `$contains(X[0], Y[0])`, `$number(X)`, `$length(X)`, `$uppercase(X)`, `$base64encode(X)`, `$eval("1", X)`, `$toMillis(X)`, `$fromMillis(X)`, `$abs(X)`, `$power(X, 2)`,
 }
